@@ -9,7 +9,9 @@
    correspondence point by point); an edit of any of these points breaks the named
    obligation.                                                                     *)
 From Coq Require Import String NArith List Bool.
-From V Require Import Base.UString Model.ScoId Model.ScoIdSrc Gen.ScoIdTables Spec.ScoIdSpec.
+From Coq Require Import ZArith Permutation.
+From V Require Import Base.UString Base.Json Model.ScoId Model.ScoIdSrc Gen.ScoIdTables Spec.ScoIdSpec Spec.ScoIdOrder
+  Proofs.ScoIdOrderProofs.
 Import ListNotations.
 
 (* `if key in self:` and `self[key]` -- presence, not truthiness *)
@@ -26,6 +28,24 @@ Print Assumptions source_hashes_special_case.
 Theorem source_hash_chain : gen_hash_prefs = spec_hash_preference.
 Proof. vm_compute. reflexivity. Qed.
 Print Assumptions source_hash_chain.
+
+(* the else branch of _choose_one_hash takes the name that sorts first (min), not the first in
+   dictionary order: the repaired variant.  (On a tree with next(iter(..)) this obligation fails by
+   name and the check reports the order-dependent witness.) *)
+Theorem source_hash_fallback : gen_hash_else = ByName.
+Proof. vm_compute. reflexivity. Qed.
+Print Assumptions source_hash_fallback.
+
+(* hence, for the source as it is, independence from nested dictionary order holds with no side
+   condition on `hashes` *)
+Theorem source_id_order_indep_nested : forall uuid5 ty contrib obj obj',
+  same_props obj obj' -> Forall (fun kv => pnodup (snd kv)) obj ->
+  gen_id uuid5 gen_hash_prefs gen_hash_else ty contrib obj = gen_id uuid5 gen_hash_prefs gen_hash_else ty contrib obj'.
+Proof.
+  intros uuid5 ty contrib obj obj' S N. apply id_order_indep_nested_proof; [exact S|exact N|].
+  apply Forall_forall. intros kv _ _. left. exact source_hash_fallback.
+Qed.
+Print Assumptions source_id_order_indep_nested.
 
 Theorem source_canonicalize_call :
   gs_nonempty_guard gen_genid = true /\ gs_canon_fn gen_genid = u "canonicalize" /\ gs_canon_utf8 gen_genid = Some false.
